@@ -141,6 +141,7 @@ def bounded(ctx):
                           "distinct by configuration", bound="configuration space complete (7 x 5 x 3 + 3); 1 (quick) / 6 (thorough) child samples per configuration", budget_s=120 if quick else 900)
     sys_path_repo = front.REPO
     build = importlib.import_module("ncs.build")
+    BuildConfiguration = build.BuildConfiguration
     create = importlib.import_module("suit_generator.cmd_create")
     from suit_generator.suit.envelope import SuitEnvelopeTagged
     rng = random.Random(ctx["seed"] + 19)
@@ -157,6 +158,14 @@ def bounded(ctx):
     }
     VERS = {"none": {}, "default-only": {"DEFAULT_SEQ_NUM": 16909056, "DEFAULT_VERSION": "1.2.3"}, "explicit-and-default": {"DEFAULT_SEQ_NUM": 5, "DEFAULT_VERSION": "0.0.5-rc.1", "APP_ROOT_SEQ_NUM": 77, "APP_ROOT_VERSION": "7.7.0",
                                                                                                             "NORDIC_TOP_SEQ_NUM": 78, "NORDIC_TOP_VERSION": "7.8.0-alpha"}}
+
+    # version settings as the NCS build produces them: a VERSION file read by the real ncs/build.read_version_file (DEFAULT_VERSION / DEFAULT_SEQ_NUM derived
+    # by append_default_version_values) - for every shape of EXTRAVERSION incl. upper / mixed case and unsupported labels ("every version setting")
+    for extra in ("", "rc1", "RC1", "Beta.2", "alpha", "dev", "rc.10", "ALPHA"):
+        vf = f"{d}/VERSION_{extra or 'none'}"
+        with open(vf, "w") as fh:
+            fh.write(f"VERSION_MAJOR = 2\nVERSION_MINOR = 7\nPATCHLEVEL = 0\nVERSION_TWEAK = 3\nEXTRAVERSION = {extra}\n")
+        VERS[f"VERSION-file/EXTRAVERSION={extra or '(empty)'}"] = dict(build.read_version_file(vf))
 
     def make_child(name, vendor, cls, k):
         desc = _child_desc(rng, vendor, cls, ALGS[k % 3], with_text=k % 2 == 1)
@@ -196,7 +205,12 @@ def bounded(ctx):
                         for m, (v, c) in mpi.items():
                             cfg[f"SB_CONFIG_SUIT_MPI_{m}_VENDOR_NAME"] = v
                             cfg[f"SB_CONFIG_SUIT_MPI_{m}_CLASS_NAME"] = c
-                        data = {"sysbuild": {"config": cfg}, "artifacts_folder": d + "/"}
+                        # the sysbuild configuration goes through the REAL reader (a .config file parsed by BuildConfiguration), one build after another in
+                        # this one process: values must come from THIS build's file only (a later build that leaves a name unset gets the default)
+                        kc = f"{d}/sysbuild_{n % 3}.config"
+                        with open(kc, "w", encoding="utf-8") as fh:
+                            fh.write("# generated\nCONFIG_SOMETHING=y\n" + "".join(f'{k_}="{v_}"\n' for k_, v_ in cfg.items()))
+                        data = {"sysbuild": {"config": BuildConfiguration(kc)}, "artifacts_folder": d + "/"}
                         data.update(vers)
                         deps, installed = {}, []
                         owners = {"radio": rad, "application": app, "top": ("nordicsemi.com", "nRF54H20_nordic_top")}
@@ -217,7 +231,7 @@ def bounded(ctx):
                         # the sequence number / version variables take effect in the documented precedence
                         from bounded import cborx
                         man = cborx.decode_all(cborx.decode_all(env, strict=True).value.get(3), strict=True)
-                        want_seq = vers.get("APP_ROOT_SEQ_NUM", vers.get("DEFAULT_SEQ_NUM", 1))
+                        want_seq = int(vers.get("APP_ROOT_SEQ_NUM", vers.get("DEFAULT_SEQ_NUM", 1)))
                         if man.get(2) != want_seq:
                             B.fail("sequence-number-from-the-version-variables", case, f"sequence number {man.get(2)}, expected {want_seq}")
     for vname, vers in VERS.items():
